@@ -571,7 +571,7 @@ def case_batch(ctx, case):
                     g[tuple(r.randrange(s) for s in g.shape)] = r.randint(1, 255)
                 vx = navis.VoxelNeuron(g, id=nid, name=nm, units='8 nm')
                 navis.write_nrrd(vx, str(fdir / fn))
-                table[fn] = (g.shape, int(g.sum()))
+                table[fn] = (tuple(int(v) for v in g.shape), int(g.sum()))
             else:
                 v, f = gen_mesh(r, r.randint(3, 7), r.randint(1, 6))
                 m = navis.MeshNeuron((v, f), id=nid, name=nm)
@@ -649,66 +649,123 @@ def case_batch(ctx, case):
             if fmt == 'nrrd':
                 return navis.read_nrrd(src, **kw)
             return navis.read_mesh(src, **kw)
-        st, res = outcome(call)
-        flags = [valid[fn] for fn in listing]
+        def obs_of(x):
+            try:
+                if fmt == 'pre_skel':
+                    return (x.n_nodes, [int(v) for v in x.nodes.parent_id.values])
+                if fmt == 'pre_mesh':
+                    return (len(x.vertices), [tuple(map(int, t)) for t in x.faces])
+                if fmt == 'nrrd':
+                    return (tuple(int(v) for v in x.grid.shape), int(x.grid.sum()))
+                return (len(x.vertices), len(x.faces))
+            except Exception as e:  # a bogus object in the result
+                return f'unreadable: {type(e).__name__}'
+
+        def summarised():
+            """('raise', 'Type: msg') | ('ok', [(type, id, name, content observable)])  – plain data only"""
+            st_, res_ = outcome(call)
+            if st_ == 'raise':
+                return 'raise', f'{type(res_).__name__}: {str(res_)[:100]}'
+            return 'ok', [(type(x).__name__, _plain(getattr(x, 'id', None)), _plain(getattr(x, 'name', None)), obs_of(x)) for x in res_]
+
+        if parallel:
+            # navis uses multiprocessing.Pool; Pool.terminate() can dead-lock in CPython when an exception leaves the
+            # `with` block while workers still hold a queue lock. The call runs in a forked child with a time limit.
+            ans = _in_child(summarised, 120)
+            if ans is None:
+                ctx.count('parallel_pool_timeout', fmt)
+                if not any('multiprocessing.Pool dead-lock' in n for n in ctx.notes):
+                    ctx.notes.append('a parallel batch read hit the CPython multiprocessing.Pool dead-lock on terminate(); the case was '
+                                     'abandoned after 120 s (not a property violation, not counted)')
+                return
+            st, got = ans
+        else:
+            st, got = summarised()
+        info_by_fn = {fn: (nm, nid) for fn, nm, nid in names}
+        # what navis' *single-file* reader makes of every file: the `read` of the policy model
+        accepts = {fn: (valid[fn] or (fmt in ('pre_skel', 'pre_mesh') and _navis_accepts(fmt, content[fn]))) for fn in listing}
+        lenient = [fn for fn in listing if accepts[fn] and not valid[fn]]
+        if lenient:
+            ctx.oracle(False, f"{fmt} file(s) {lenient} (of {len(listing)} in a {container}) are rejected by the independent decoder but "
+                              f"navis reads them 'successfully': with errors='{errors}' the corrupt file is neither raised nor skipped",
+                       case, signature=('PrecomputedSkeletonReader.read_buffer/truncated-at-item-boundary/accepted' if fmt == 'pre_skel'
+                                        else 'PrecomputedMeshReader.read_buffer/truncated-vertex-block/accepted'))
+        flags = [accepts[fn] for fn in listing]
         kind = 'zip' if container == 'zip' else (f'par:{max(1, (len(listing) + 1) // 2)}' if parallel and listing else 'dir')
         model = ctx.ask(f"c14.batch {errors} {kind} {','.join('1' if x else '0' for x in flags)}")
-        info_by_fn = {fn: (nm, nid) for fn, nm, nid in names}
         if st == 'raise':
             impl = 'RAISE'
-            got = None
         else:
-            got = [(type(x).__name__, getattr(x, 'id', None), getattr(x, 'name', None)) for x in res]
             pos = {info_by_fn[fn][1]: i for i, fn in enumerate(listing)}
             impl = 'OK ' + ','.join(str(pos.get(g[1], f'?{g[1]}')) for g in got)
-        aligned_accept = fmt in ('pre_skel', 'pre_mesh') and any(
-            (not valid[fn]) and _navis_accepts(fmt, content[fn]) for fn in listing)
         sig = None
-        if aligned_accept:
-            sig = ('PrecomputedSkeletonReader.read_buffer/truncated-at-item-boundary/accepted' if fmt == 'pre_skel'
-                   else 'PrecomputedMeshReader.read_buffer/truncated-vertex-block/accepted')
-        elif fmt in ('obj', 'ply', 'stl', 'off') and errors != 'raise' and not all(flags):
+        if fmt in ('obj', 'ply', 'stl', 'off') and errors != 'raise' and not all(flags):
             sig = 'MeshReader.format_output/None-not-filtered'
         if sig is None:
             ctx.corr(impl, model, f'batch read ({fmt}, {container}, errors={errors}, parallel={parallel}) vs Lean policy model '
-                                  f'(valid flags {flags})', case)
+                                  f'(readable flags {flags})', case)
         # ---- oracle, independent of the model
         nbad = flags.count(False)
         if errors == 'raise':
             ctx.oracle((st == 'raise') == (nbad > 0),
                        f"errors='raise', {nbad} corrupt file(s) of {len(flags)} in a {container}: call "
-                       f"{'raised' if st == 'raise' else 'returned ' + str(got)}" +
-                       ('' if st != 'raise' else f' {type(res).__name__}: {str(res)[:80]}'), case, signature=sig)
+                       f"{'raised ' + str(got) if st == 'raise' else 'returned ' + str([g[:3] for g in got])}", case, signature=sig)
         else:
             named = pattern == 'name_id'
             want = [(info_by_fn[fn][0] if named else None, info_by_fn[fn][1]) for fn, okf in zip(listing, flags) if okf]
             if st == 'raise':
-                ctx.oracle(False, f"errors='{errors}': batch read raised {type(res).__name__}: {str(res)[:100]} "
-                                  f"({nbad} corrupt of {len(flags)})", case, signature=sig)
+                ctx.oracle(False, f"errors='{errors}': batch read raised {got} ({nbad} corrupt of {len(flags)})", case, signature=sig)
             else:
                 have = [(g[2] if named else None, g[1]) for g in got]
-                ctx.oracle(have == want, f"errors='{errors}' ({fmt}, {container}): returned {got}, expected one neuron per valid "
-                                         f"file in listing order with (name,id) = {want}", case, signature=sig)
+                ctx.oracle(have == want, f"errors='{errors}' ({fmt}, {container}): returned {[g[:3] for g in got]}, expected one neuron "
+                                         f"per valid file in listing order with (name,id) = {want}", case, signature=sig)
                 # the valid files are not affected by the corrupt ones
-                for x in res:
-                    fn = next((f for f in listing if info_by_fn[f][1] == getattr(x, 'id', None)), None)
+                for g in got:
+                    fn = next((f for f in listing if info_by_fn[f][1] == g[1]), None)
                     if fn is None or not valid[fn] or fn in touched:
                         continue
-                    if fmt == 'pre_skel':
-                        okc = (x.n_nodes, [int(v) for v in x.nodes.parent_id.values]) == table[fn]
-                    elif fmt == 'pre_mesh':
-                        okc = (len(x.vertices), [tuple(map(int, t)) for t in x.faces]) == table[fn]
-                    elif fmt == 'nrrd':
-                        okc = (tuple(x.grid.shape), int(x.grid.sum())) == table[fn]
-                    else:
-                        okc = (len(x.vertices), len(x.faces)) == table[fn]
-                    ctx.oracle(okc, f'content of valid file {fn} changed in a batch with corrupt neighbours', case)
+                    ctx.oracle(g[3] == table[fn], f'content of valid file {fn} changed in a batch with corrupt neighbours: '
+                                                  f'{g[3]} vs written {table[fn]}', case)
         # determinism of the order: a second read gives the same sequence
-        if st == 'ok' and case.get('twice', True):
-            st2, res2 = outcome(call)
-            ctx.oracle(st2 == 'ok' and [getattr(x, 'id', None) for x in res2] == [getattr(x, 'id', None) for x in res],
+        if st == 'ok' and case.get('twice', True) and not parallel:
+            st2, got2 = summarised()
+            ctx.oracle(st2 == 'ok' and [g[1] for g in got2] == [g[1] for g in got],
                        'two reads of the same container return different orders', case,
                        signature=sig if sig == 'MeshReader.format_output/None-not-filtered' else None)
+
+
+def _plain(v):
+    return v if isinstance(v, (int, str, type(None))) else str(v)
+
+
+def _in_child(fn, timeout):
+    """run fn() in a forked child; its (picklable) result or None on timeout / crash"""
+    import multiprocessing as mp
+    mpc = mp.get_context('fork')
+    rx, tx = mpc.Pipe(duplex=False)
+
+    def target():
+        try:
+            tx.send(fn())
+        except BaseException as e:  # noqa
+            tx.send(('raise', f'{type(e).__name__}: {str(e)[:100]}'))
+        finally:
+            tx.close()
+    pr = mpc.Process(target=target)
+    pr.start()
+    tx.close()
+    out = None
+    try:
+        if rx.poll(timeout):
+            out = rx.recv()
+    except (EOFError, OSError):
+        out = None
+    pr.join(5)
+    if pr.is_alive():
+        pr.kill()
+        pr.join(5)
+    rx.close()
+    return out
 
 
 def _navis_accepts(fmt, data):
